@@ -57,7 +57,7 @@ var BuiltinNames = []string{"not", "isnull", "isnotnull", "tolower", "toupper", 
 var PassThrough = []string{"f", "g2", "dateadd", "my_func", "F", "strlen", "COUNTIF", "bin"}
 
 var numSpellings = []string{"0", "1", "2", "7", "42", "007", "0x1F", "0X0a", "0xffffffffffffffff", ".5", "1.", "1.5", "0.25", "1e3", "1E+2", "1.e-1", "00.50", "9007199254740993", "123456789012345678901234567890", "1e400"}
-var intSpellings = []string{"0", "1", "2", "3", "10", "007", "0x1F", "0X0a", "18446744073709551615"}
+var intSpellings = []string{"0", "1", "2", "3", "10", "007", "0x1F", "0X0a", "18446744073709551615", "18446744073709551616", "340282366920938463463374607431768211456"}
 var strValues = []string{"", "a", "A", "b c", "Thunderstorm Wind", "x"}
 var hostileStrValues = []string{"it's", `say "hi"`, `back\slash`, `end\`, "tab\there", "nl\nline", "é", "--", "/* c */", ";", "' OR 1=1 --", `\'`, "\x00", "bad\xffutf", "`", `'; DROP TABLE t; --`, `\\`, "{p}", "a''b"}
 
@@ -377,7 +377,7 @@ func (g *G) OpOfKind(kind string, joinDepth int) Op {
 				v = g.StrLit()
 			case k < 3:
 				v = &Num{Text: pickFrom(g, "num", numSpellings)}
-			case k < 5 || g.Cfg.Compilable:
+			case k < 5:
 				v = &QIdent{Parts: []Ident{g.Ident()}}
 			default:
 				v = g.Expr(1, ECtx{})
@@ -430,7 +430,7 @@ func (g *G) Tabular(joinDepth int) *Tabular {
 
 // LetStmt draws a let statement and, when it is usable, adds its name to scope.
 func (g *G) LetStmt() *Let {
-	name := pickFrom(g, "letname", []string{"n", "lim", "v1", "a", "k", "desired"})
+	name := pickFrom(g, "letname", []string{"n", "lim", "v1", "a", "k", "desired", "T", "Events"})
 	if g.chance("freshlet", 2) {
 		name = g.Fresh("L")
 	}
